@@ -412,7 +412,8 @@ func TestDecodersOnShortStrings(t *testing.T) {
 	}
 	sec.Bounds["binary_decoders_all_256_bytes_up_to_len"] = binAll
 	sec.Bounds["Pin_protobuf_all_256_bytes_up_to_len"] = binPin
-	sec.Bounds["reduced_alphabet_up_to_len"] = redMax
+	sec.Bounds["reduced_alphabet_up_to_len_Pin_LogOp_State"] = redMax
+	sec.Bounds["reduced_alphabet_up_to_len_minor_decoders_thorough"] = 4
 	sec.Bounds["reduced_alphabet_protobuf"] = fmt.Sprintf("%x", protoAlphabet)
 	sec.Bounds["reduced_alphabet_msgpack"] = fmt.Sprintf("%x", mpAlphabet)
 	sec.Bounds["json_alphabet"] = jsonAlphabet
@@ -447,7 +448,11 @@ func TestDecodersOnShortStrings(t *testing.T) {
 			if d.codec == "protobuf" {
 				red = protoAlphabet
 			}
-			for l := maxLen + 1; l <= redMax; l++ {
+			top := redMax
+			if !(d.typ == "Pin" || d.typ == "LogOp" || d.typ == "State") {
+				top = 4 // minor decoders in thorough: reduced alphabet up to 4
+			}
+			for l := maxLen + 1; l <= top; l++ {
 				enumStrings(sec, d, fmt.Sprintf("reduced-len%d", l), red, l)
 			}
 		}
